@@ -24,13 +24,43 @@ void one_case(Ctx &c) {
     txid[n] = 0x600u + srvnode[n]; rxid[n] = 0x580u + srvnode[n];
   }
   w.finish();
+  // build n2: the second client runs its own (expedited) transfer concurrently - begun between two steps of the main transfer, completed there,
+  // at a later step, or after the main transfer has ended; it must neither disturb the main transfer nor be disturbed by it
+  struct Other { bool open = false; int n = 0; bool up = false; uint32_t size = 0; uint16_t idx = 0; uint8_t sub = 0; uint8_t *buf = nullptr; uint8_t sv[4], orig[4]; } oth;
+  int other_cnt = 0;
+  auto other_begin = [&](int o) {
+    oth.n = o; oth.up = c.t.coin(); oth.size = 1 + c.t.below(4); oth.idx = (uint16_t)(0x3000 + c.t.below(4)); oth.sub = (uint8_t)c.t.below(3);
+    oth.buf = (uint8_t *)malloc(oth.size); for (uint32_t i = 0; i < oth.size; i++) { oth.sv[i] = c.t.byte(); oth.buf[i] = oth.up ? 0xEE : c.t.byte(); oth.orig[i] = oth.buf[i]; }
+    g_cb[o] = CB();
+    s.api_begin(); CO_CSDO *oc = COCSdoFind(s.node, (uint8_t)o); s.api_end("COCSdoFind"); CHECK(c, oc != nullptr, "harness", "client %d not available", o);
+    s.api_begin(); CO_ERR e = oth.up ? COCSdoRequestUpload(oc, CO_DEV(oth.idx, oth.sub), oth.buf, oth.size, o ? done1 : done0, 60000) : COCSdoRequestDownload(oc, CO_DEV(oth.idx, oth.sub), oth.buf, oth.size, o ? done1 : done0, 60000); s.api_end("COCSdoRequest");
+    CHECK(c, e == CO_ERR_NONE, "request-accepted", "request on the idle client %d refused with %d while client %d is busy", o, e, 1 - o);
+    CHECK(c, s.tx.size() == 1 && s.tx[0].id == txid[o] && s.tx[0].dlc == 8 && s.tx[0].u16(1) == oth.idx && s.tx[0].d[3] == oth.sub, "concurrent-clients", "client %d: %zu frame(s)%s%s for its request of %04X:%02X", o, s.tx.size(), s.tx.empty() ? "" : ", first ", s.tx.empty() ? "" : s.tx[0].str().c_str(), oth.idx, oth.sub);
+    if (oth.up) CHECK(c, s.tx[0].d[0] == 0x40, "concurrent-clients", "client %d upload request %s", o, s.tx[0].str().c_str());
+    else CHECK(c, s.tx[0].d[0] == (0x23 | ((4 - oth.size) << 2)) && !memcmp(s.tx[0].d + 4, oth.orig, oth.size), "concurrent-clients", "client %d expedited download %s does not carry its %u user byte(s)", o, s.tx[0].str().c_str(), oth.size);
+    VLOG(c, "    [client %d -> %s]", o, s.tx[0].str().c_str());
+    s.clear_tx(); oth.open = true; other_cnt++;
+  };
+  auto other_finish = [&](CB &maincb, int maincount) {
+    int o = oth.n; Frame r; r.id = rxid[o]; r.dlc = 8; r.d[1] = (uint8_t)oth.idx; r.d[2] = (uint8_t)(oth.idx >> 8); r.d[3] = oth.sub;
+    if (oth.up) { r.d[0] = (uint8_t)(0x43 | ((4 - oth.size) << 2)); memcpy(r.d + 4, oth.sv, oth.size); } else r.d[0] = 0x60;
+    VLOG(c, "    [server -> %s]", r.str().c_str());
+    s.rx(r);
+    CHECK(c, g_cb[o].count == 1 && g_cb[o].code == 0 && g_cb[o].idx == oth.idx && g_cb[o].sub == oth.sub, "concurrent-clients", "client %d: %d callback(s), code %08X for %04X:%02X after its server answered (one with code 0 for %04X:%02X expected)", o, g_cb[o].count, g_cb[o].code, g_cb[o].idx, g_cb[o].sub, oth.idx, oth.sub);
+    CHECK(c, !memcmp(oth.buf, oth.up ? oth.sv : oth.orig, oth.size), "concurrent-clients", "client %d: user buffer differs from %s", o, oth.up ? "the server's bytes" : "what the application put there");
+    CHECK(c, s.tx.empty(), "concurrent-clients", "completing client %d's transfer sent %s", o, s.tx.empty() ? "" : s.tx[0].str().c_str());
+    if (&maincb != &g_cb[o]) CHECK(c, maincb.count == maincount, "concurrent-clients", "completing client %d's transfer invoked the other client's callback", o);
+    free(oth.buf); oth.buf = nullptr; oth.open = false;
+  };
   int ntransfers = 1 + (int)c.t.below(6); bool nt = ntransfers >= 2; int malformed_cnt = 0, stale_cnt = 0;
   VLOG(c, "node %u, %u timer slots, %d transfer(s)", s.nodeid, s.ntmr, ntransfers);
   for (int x = 0; x < ntransfers; x++) {
     int n = CO_CSDO_N > 1 ? (int)c.t.below(2) : 0;
     s.api_begin(); CO_CSDO *cl = COCSdoFind(s.node, (uint8_t)n); s.api_end("COCSdoFind");
     CHECK(c, cl != nullptr, "harness", "client %d not available", n);
-    int base = s.timers_used();
+    if (oth.open && oth.n == n) other_finish(g_cb[n], g_cb[n].count);
+    int base = s.timers_used() - (oth.open ? 1 : 0);
+    bool inter_t = CO_CSDO_N > 1 && c.t.chance(100);
     bool up = c.t.coin();
     static const uint32_t M[6] = {4, 7, 8, 14, 256, 263};
     uint32_t size; { uint32_t r = c.t.below(6); size = r == 0 ? 1 + c.t.below(4) : r == 1 ? 248 + c.t.below(24) : r == 2 ? 7 * (1 + c.t.below(40)) : r == 3 ? 256 * (1 + c.t.below(7)) + c.t.below(17) - 8 : c.t.biased(1, 2000, M, 6); }
@@ -65,6 +95,10 @@ void one_case(Ctx &c) {
         finished = true; break;
       }
       Frame &f = q[0]; VLOG(c, "  client -> %s", f.str().c_str());
+      if (inter_t && c.t.chance(64)) {
+        if (!oth.open) { other_begin(1 - n); if (c.t.coin()) other_finish(cb, 0); }
+        else if (oth.n != n) other_finish(cb, 0);
+      }
       CHECK(c, f.id == txid[n] && f.dlc == 8, "client-frames", "client frame %s: expected identifier %03X with 8 bytes", f.str().c_str(), txid[n]);
       Frame rsp; rsp.id = rxid[n]; rsp.dlc = 8;
       bool willfinish = false;
@@ -157,7 +191,7 @@ void one_case(Ctx &c) {
       else { CHECK(c, rcv.size() == size, "download-data", "the server received %zu bytes, the user buffer has %u", rcv.size(), size); for (uint32_t i = 0; i < size; i++) CHECK(c, rcv[i] == orig[i], "download-data", "download of %u bytes: byte %u received as %02X, user buffer holds %02X", size, i, rcv[i], orig[i]); }
     }
     if (!up && conforming) CHECK(c, !memcmp(ub, orig.data(), size), "user-buffer", "a download from a conforming server modified the user buffer");
-    CHECK(c, s.timers_used() == base, "nothing-left-behind", "after the transfer %d timer slot(s) are in use, %d before it (a finished transfer must leave no timer behind)", s.timers_used(), base);
+    CHECK(c, s.timers_used() - (oth.open ? 1 : 0) == base, "nothing-left-behind", "after the transfer %d timer slot(s) are in use, %d before it (a finished transfer must leave no timer behind)", s.timers_used() - (oth.open ? 1 : 0), base);
     { s.api_begin(); CO_CSDO *again = COCSdoFind(s.node, (uint8_t)n); s.api_end("COCSdoFind"); CHECK(c, again == cl && cl->State == CO_CSDO_STATE_IDLE, "nothing-left-behind", "the client is not idle after completion"); }
     s.clear_tx(); s.clear_ev();
     // idle gap: no callback, no frame; a late frame from the server must not disturb the idle client
@@ -170,6 +204,8 @@ void one_case(Ctx &c) {
     if (ended_by_stale) c.cls("stale-frame-ended-transfer");
     c.ops += step + 1;
   }
+  if (oth.open) other_finish(g_cb[oth.n], g_cb[oth.n].count);
+  if (other_cnt) c.cls("concurrent-second-client");
   if (stale_cnt) c.cls("stale-frame-injected");
   (void)malformed_cnt;
   c.nontrivial = nt;
@@ -180,9 +216,11 @@ Registrar reg(Prop{
     "Cases: node id 1..100, timer pool 4..16, client(s) 1280h (and 1281h in build n2); sequences of 1..6 back-to-back transfers (upload/download, size 1..2000 incl. 1..4, around 256 and multiples of 256 +- 8, multiples of 7; timeout 1..40 ms; idle gaps 0..11 ticks) against a scripted reference server: "
     "conforming; aborting at step k; silent from step k; answering late but in time; or malformed at step k (wrong toggle, wrong multiplexer, oversized announcement, segments without end, wrong command class, random bytes) and nonsense afterwards. A second request is issued while the client is busy. "
     "Oracle: exactly one completion callback per accepted request with the right arguments; code 0 and user buffer == server bytes (upload) / server received exactly the user bytes with announced size, toggles and last-segment marking (download); the server's abort code; 0504 0000h and one abort frame at exactly lastrequest + timeout when the server is silent; busy => CO_ERR_SDO_BUSY; "
+    "A frame that cannot be the awaited response (wrong command specifier for the phase, wrong toggle bit, initiate response or abort for a different multiplexer: the late answer to an earlier transfer) may precede the server's answer: the client either ignores it (no frame, no callback, the transfer completes as without it) or ends the transfer there with a non-zero code - never code 0. "
+    "In build n2 the second client runs an expedited transfer of its own concurrently (begun between two steps of the main transfer; completed there, at a later step or after the main transfer): neither transfer may disturb the other. "
     "user buffers are exact-size heap blocks (ASan red zones); download buffers unmodified (conforming servers); timer-pool occupancy after completion equals the one before; client idle; no callback or frame during the idle gap or on a late server frame. For malformed servers only exactly-once (by the timeout at the latest), memory safety and nothing-left-behind are asserted. "
     "Non-trivial: >= 2 transfers in the case or a segmented transfer. Distinct = distinct decoded choice sequence.",
-    {Mode{"random", one_case, false, 1200000, 15000000, 0, 0, 260, 500}},
+    {Mode{"random", one_case, false, 1200000, 15000000, 0, 0, 400, 1500}},
     {"timer frequency 1000 Hz (1 ms = 1 tick)", "for uploads the application passes the object's size as buffer size (the client refuses a different announced size by design)"}});
 
 }  // namespace
